@@ -22,7 +22,9 @@ EXTENDS Naturals, Sequences, FiniteSets, TLC
 CONSTANTS Dev,        \* named deviations of the real code (DESIGN 2.6)
           Budget,     \* number of rewrites the adversary may perform
           Shapes, Denials, QKinds,
-          AdvActs     \* adversary actions enabled in this configuration
+          AdvActs,    \* adversary actions enabled in this configuration
+          EntQKinds,  \* query kinds explored in the ENT hierarchy shapes
+          MaxRuns     \* validations of the same question on ONE context (caches persist)
 
 DevNames == {"D_nsec3_label_expect", "D_ttl0_node_panic", "D_extra_rrset_ignored"}
 
@@ -99,6 +101,14 @@ HonestAnswer(sh, den, qk) ==
                                          ELSE <<Proof(sh, den, "ce", z, FALSE)>>) \o
                                         <<Proof(sh, den, "nx", z, TRUE),
                                           ProofD(sh, den, "wc", z, TRUE, PDepth(den, "wc", qk))>>)
+    \* NXDOMAIN two labels below the apex, below an existing name: with NSEC3 the
+    \* record matching that closest encloser is needed; with NSEC one record
+    \* (owner = the existing name) denies both the name and the wildcard
+    [] qk = "nxdeep"   -> <<Soa(sh, z)>> \o
+                          Proofs(sh, z, IF den = "nsec" THEN <<Proof(sh, den, "nx", z, TRUE)>>
+                                        ELSE <<Proof(sh, den, "nx", z, TRUE),
+                                               Proof(sh, den, "ce", z, FALSE),
+                                               Proof(sh, den, "wc", z, TRUE)>>)
     [] qk = "cname1"   -> <<Data(sh, "cname1", z, 1, FALSE), Data(sh, "ans", z, 1, FALSE)>>
     [] qk = "cname2"   -> <<Data(sh, "cname1", z, 1, FALSE), Data(sh, "cname2", z, 1, FALSE),
                             Data(sh, "ans", z, 1, FALSE)>>
@@ -108,7 +118,7 @@ HonestAnswer(sh, den, qk) ==
     [] qk = "dnamex"   -> <<Data(sh, "dname", "plain", 1, FALSE), Data(sh, "ans", z, 1, FALSE)>>
     [] qk = "ds" ->
          IF LeafSecure(sh)
-         THEN <<Signd(sh, Grp("ans", "ds", p, Key(z), NoPrf, FALSE, 1))>>
+         THEN <<Signd(sh, Grp("ans", "ds", p, {Key(z)}, NoPrf, FALSE, 1))>>
          ELSE <<Soa(sh, p)>> \o
               (IF den = "optout"
                THEN <<Proof(sh, den, "ce", p, FALSE), Proof(sh, den, "nx", p, TRUE)>>
@@ -130,7 +140,7 @@ HonestFetch(sh, den, t, z) ==
                  !.sigs = {Sig(z, Grp("ans", "dnskey", z, {Key(z)}, NoPrf, FALSE, 0), "ok")}]>>
        ELSE <<Soa(sh, z)>>
   ELSE IF Signed(sh, z)
-       THEN <<Signd(sh, Grp("ans", "ds", p, Key(z), NoPrf, FALSE, 1))>>
+       THEN <<Signd(sh, Grp("ans", "ds", p, {Key(z)}, NoPrf, FALSE, 1))>>
        ELSE <<Soa(sh, p)>> \o
             (IF den = "optout"
              THEN <<Proof(sh, den, "ce", p, FALSE), Proof(sh, den, "nx", p, TRUE)>>
@@ -148,6 +158,14 @@ TheSig(g) == CHOOSE s \in g.sigs : TRUE
 \* the failing RRSIGs count only when they are tried before the good one
 MaxBad == 1
 TooManyBad(g) == g.bad.first /\ g.bad.n > MaxBad
+\* validate_with_node tries every key of the node with the signature's tag:
+\* a second key with a colliding tag fails once for the good signature when it
+\* is listed first, and doubles the failures of every bad signature
+CollIn(keys) == \E k \in keys : Len(k) = 3
+CollFirstIn(keys) == \E k \in keys : Len(k) = 3 /\ k[2] = "collides-first"
+TooManyBadWith(g, keys) ==
+  (IF g.bad.first THEN g.bad.n * (IF CollIn(keys) THEN 2 ELSE 1) ELSE 0)
+  + (IF CollFirstIn(keys) THEN 1 ELSE 0) > MaxBad
 
 Meet(a, b) == IF "Bogus" \in {a, b} THEN "Bogus"
               ELSE IF "Insecure" \in {a, b} THEN "Insecure" ELSE "Secure"
@@ -175,23 +193,26 @@ VARIABLES scn,      \* [shape, denial, qk]
           probes,   \* DS probes for non-apex names still to be sent
           served,   \* fetch key -> message as delivered (for the oracle)
           fetches,  \* history of fetches, in order
+          run,      \* number of the current validation on this context
+          hist,     \* earlier runs: <<[adv, result]>>
           entp,     \* the ENT above the leaf zone has been looked at
           result, steps
 
 vars == <<scn, budget, advlog, pc, pend, inbox, msg, gi, gst, walk, node, tkeys,
-          dsd, ttl0, probes, served, fetches, entp, result, steps>>
+          dsd, ttl0, probes, served, fetches, entp, run, hist, result, steps>>
 
 AllZones == {"root", "tld", "zone", "sub", "other", "plain"}
 FKey(t, z) == <<t, z>>
 
 Init ==
-  /\ scn \in [shape : Shapes, denial : Denials, qk : QKinds]
+  /\ scn \in {x \in [shape : Shapes, denial : Denials, qk : QKinds] :
+                  EntShape(x.shape) => x.qk \in EntQKinds}
   /\ budget = Budget /\ advlog = <<>>
   /\ pc = "wire" /\ pend = [t |-> "ANS", z |-> Leaf(scn.shape)]
   /\ inbox = HonestAnswer(scn.shape, scn.denial, scn.qk)
   /\ msg = <<>> /\ gi = 1 /\ gst = <<>> /\ walk = <<>>
   /\ node = [z \in AllZones |-> "none"] /\ tkeys = [z \in AllZones |-> {}]
-  /\ dsd = <<>> /\ ttl0 = {} /\ probes = 0 /\ entp = FALSE
+  /\ dsd = {} /\ ttl0 = {} /\ probes = 0 /\ entp = FALSE /\ run = 1 /\ hist = <<>>
   /\ served = <<>> /\ fetches = <<>> /\ result = "none" /\ steps = 0
 
 -----------------------------------------------------------------------------
@@ -212,20 +233,20 @@ CanAdv(act) == /\ pc = "wire" /\ budget > 0 /\ act \in AdvActs
 Rewrite(act, role, m) ==
   /\ inbox' = m /\ budget' = budget - 1 /\ advlog' = Log(act, role)
   /\ steps' = steps + 1
-  /\ UNCHANGED <<entp, scn, pc, pend, msg, gi, gst, walk, node, tkeys, dsd, ttl0, probes,
+  /\ UNCHANGED <<run, hist, entp, scn, pc, pend, msg, gi, gst, walk, node, tkeys, dsd, ttl0, probes,
                  served, fetches, result>>
 
 SignedRole(r) == Has(inbox, r) /\ Get(inbox, r).sigs # {}
 
 Adv_DropRrsig ==
   /\ pc = "wire"
-  /\ \E r \in {"ans", "cname1", "dname", "soa", "nd", "nx", "wc"} :
+  /\ \E r \in {"ans", "cname1", "dname", "soa", "nd", "nx", "ce", "wc"} :
         /\ CanAdv("DropRrsig") /\ SignedRole(r)
         /\ Rewrite("DropRrsig", r, MapRole(inbox, r, LAMBDA g : [g EXCEPT !.sigs = {}]))
 
 Adv_DropRrset ==
   /\ pc = "wire"
-  /\ \E r \in {"ans", "cname1", "soa", "nd", "nx", "wc"} :
+  /\ \E r \in {"ans", "cname1", "soa", "nd", "nx", "ce", "wc"} :
         /\ CanAdv("DropRrset") /\ Has(inbox, r)
         /\ Rewrite("DropRrset", r, Without(inbox, LAMBDA g : g.role = r))
 
@@ -274,6 +295,7 @@ Adv_ReplayAncestor ==
   /\ pc = "wire"
   /\ \E k \in {"Dname", "Cut", "CutIns"} :
         /\ CanAdv("ReplayAncestor") /\ pend.t = "ANS" /\ scn.qk \in {"nxdomain", "nodata"}
+        /\ MaxRuns = 1
         /\ SignedRole("soa")
         /\ k = "CutIns" => scn.denial # "optout"   \* not in the Opt-Out chain
         /\ LET z == Leaf(scn.shape)
@@ -282,6 +304,47 @@ Adv_ReplayAncestor ==
                          covers |-> "ancestor", optout |-> FALSE], FALSE, 1)
            IN Rewrite("ReplayAncestor" \o (IF scn.qk = "nxdomain" THEN "Nx" ELSE "Nd") \o k, "nx",
                       <<Soa(scn.shape, z), [g EXCEPT !.sigs = {Sig(z, g, "ok")}]>>)
+
+\* An honest zone with two keys of equal algorithm and key tag (the second one
+\* listed before / after the DS-committed key), DNSKEY RRset signed by the
+\* zone's own key; and a delegation with two DS records, one of them for
+\* another key with the same tag.  Nothing may change.
+CollKey(z, first) == <<"K", IF first THEN "collides-first" ELSE "collides-last", z>>
+Adv_AddCollidingKey ==
+  /\ pc = "wire"
+  /\ \E first \in BOOLEAN :
+        /\ CanAdv("AddCollidingKey") /\ pend.t = "DNSKEY" /\ SignedRole("ans")
+        /\ Get(inbox, "ans").kind = "dnskey"
+        /\ Rewrite("AddCollidingKey" \o (IF first THEN "First" ELSE "Last"), "ans",
+                   MapRole(inbox, "ans", LAMBDA g :
+                     LET h == [g EXCEPT !.rdata = g.rdata \cup {CollKey(g.zone, first)}] IN
+                     [h EXCEPT !.sigs = {Sig(g.zone, h, "ok")}]))
+Adv_AddExtraDs ==
+  /\ pc = "wire"
+  /\ \E first \in BOOLEAN :
+        /\ CanAdv("AddExtraDs") /\ SignedRole("ans") /\ Get(inbox, "ans").kind = "ds"
+        /\ Rewrite("AddExtraDs" \o (IF first THEN "First" ELSE "Last"), "ans",
+                   MapRole(inbox, "ans", LAMBDA g :
+                     LET h == [g EXCEPT !.rdata = g.rdata \cup {CollKey(pend.z, first)}] IN
+                     [h EXCEPT !.sigs = {Sig(g.zone, h, "ok")}]))
+
+\* the same RRset and RRSIG fields, different signature octets
+Adv_CorruptSigOctets ==
+  /\ pc = "wire"
+  /\ \E r \in {"ans", "soa", "nx"} :
+        /\ CanAdv("CorruptSigOctets") /\ SignedRole(r)
+        /\ Rewrite("CorruptSigOctets", r, MapRole(inbox, r, LAMBDA g : [g EXCEPT !.sigs =
+              {[TheSig(g) EXCEPT !.sg = [key |-> TheSig(g).sg.key, over |-> <<"garbage">>]]}]))
+
+\* NXDOMAIN below an existing name (qk nxdeep, NSEC3): the record matching the
+\* real closest encloser is withheld and the wildcard denial shown is the one
+\* for *.<apex>: genuine records, but no closest-encloser proof
+Adv_HideCe ==
+  /\ CanAdv("HideCe") /\ pend.t = "ANS" /\ scn.qk = "nxdeep" /\ scn.denial # "nsec"
+  /\ Has(inbox, "ce") /\ SignedRole("wc")
+  /\ Rewrite("HideCe", "", MapRole(Without(inbox, LAMBDA g : g.role = "ce"), "wc", LAMBDA g :
+        LET h == [g EXCEPT !.rdata = "other", !.prf.covers = "wrong"] IN
+        [h EXCEPT !.sigs = {Sig(g.zone, h, "ok")}]))
 
 \* forged data signed with the attacker's key in the zone's name (only useful
 \* together with CorruptKey on that zone's DNSKEY fetch)
@@ -304,7 +367,7 @@ Adv_CorruptKey ==
 
 Adv_CorruptDs ==
   /\ CanAdv("CorruptDs") /\ Has(inbox, "ans") /\ Get(inbox, "ans").kind = "ds"
-  /\ Rewrite("CorruptDs", "ans", MapRole(inbox, "ans", LAMBDA g : [g EXCEPT !.rdata = AdvKey]))
+  /\ Rewrite("CorruptDs", "ans", MapRole(inbox, "ans", LAMBDA g : [g EXCEPT !.rdata = {AdvKey}]))
 
 Adv_StripProof ==
   /\ CanAdv("StripProof") /\ \E i \in 1..Len(inbox) : IsProofRole(inbox[i].role)
@@ -363,11 +426,12 @@ Adv_Inject ==
                 ans \o <<Grp("inj", "data", "plain", "good", NoPrf, FALSE, 1)>> \o aut)
 
 Adv_CnameLoop ==
-  /\ CanAdv("CnameLoop") /\ pend.t = "ANS" /\ scn.qk = "positive"
+  /\ CanAdv("CnameLoop") /\ pend.t = "ANS" /\ scn.qk = "positive" /\ MaxRuns = 1
   /\ Rewrite("CnameLoop", "", LoopAnswer(scn.shape))
 
 AdvNext == \/ Adv_DropRrsig \/ Adv_DropRrset \/ Adv_ReplaceRdata \/ Adv_WrongSigner
-           \/ Adv_Expire \/ Adv_NotYetValid \/ Adv_ReplayAncestor \/ Adv_ForgeSigned \/ Adv_AddBadSig \/ Adv_CorruptKey \/ Adv_CorruptDs
+           \/ Adv_Expire \/ Adv_NotYetValid \/ Adv_AddCollidingKey \/ Adv_AddExtraDs \/ Adv_CorruptSigOctets \/ Adv_HideCe
+           \/ Adv_ReplayAncestor \/ Adv_ForgeSigned \/ Adv_AddBadSig \/ Adv_CorruptKey \/ Adv_CorruptDs
            \/ Adv_StripProof \/ Adv_ForgeNsecRange \/ Adv_SwapProof
            \/ Adv_BadNsec3Label \/ Adv_BadNsec3LabelSigned \/ Adv_ZeroCounts
            \/ Adv_ZeroTtl \/ Adv_Inject \/ Adv_CnameLoop
@@ -388,7 +452,7 @@ Deliver ==
   /\ IF pend.t = "ANS"
      THEN msg' = inbox /\ pc' = "group"
      ELSE msg' = msg /\ pc' = IF pend.t = "DS" THEN "vds" ELSE "vkey"
-  /\ UNCHANGED <<entp, scn, budget, advlog, pend, inbox, gi, gst, walk, node, tkeys, dsd,
+  /\ UNCHANGED <<run, hist, entp, scn, budget, advlog, pend, inbox, gi, gst, walk, node, tkeys, dsd,
                  ttl0, probes, fetches, result>>
 
 \* Group::validate_with_vc: the zone whose node decides about this group
@@ -401,8 +465,12 @@ Target(g) == IF g.sigs # {} THEN TheSig(g).signer
 
 \* get_node / find_closest_node: first uncached zone on the path, unless an
 \* ancestor is already known not to be Secure
+\* (find_closest_node tests for the trust anchor's name before it looks into
+\* the cache: when no node below the anchor is cached on the path, the anchor's
+\* node is built - and its DNSKEY RRset fetched - again)
 RECURSIVE Need(_, _)
-Need(p, i) == IF i > Len(p) THEN <<>>
+Need(p, i) == IF i = 1 /\ Len(p) >= 2 /\ node[p[2]] = "none" THEN p
+              ELSE IF i > Len(p) THEN <<>>
               ELSE IF node[p[i]] = "none" THEN SubSeq(p, i, Len(p))
               ELSE IF node[p[i]] # "Secure" THEN <<>>
               ELSE Need(p, i + 1)
@@ -422,7 +490,7 @@ StartGroup ==
        /\ walk' = w
        /\ probes' = IF g.sigs = {} /\ ~AtCut(g) THEN g.depth ELSE 0
        /\ pc' = IF w # <<>> THEN "walk" ELSE "probe"
-  /\ UNCHANGED <<entp, scn, budget, advlog, pend, inbox, msg, gi, gst, node, tkeys, dsd,
+  /\ UNCHANGED <<run, hist, entp, scn, budget, advlog, pend, inbox, msg, gi, gst, node, tkeys, dsd,
                  ttl0, served, fetches, result>>
 
 Issue(t, z) ==
@@ -446,7 +514,7 @@ FetchNext ==
             /\ UNCHANGED <<pend, inbox, fetches>>
        ELSE /\ Issue(IF z = "root" THEN "DNSKEY" ELSE "DS", z)
             /\ UNCHANGED result
-  /\ UNCHANGED <<entp, scn, budget, advlog, msg, gi, gst, walk, node, tkeys, dsd, ttl0,
+  /\ UNCHANGED <<run, hist, entp, scn, budget, advlog, msg, gi, gst, walk, node, tkeys, dsd, ttl0,
                  probes, served>>
 
 SetNode(z, st, keys) ==
@@ -467,21 +535,21 @@ EntProbe ==
   /\ IF UsesTtl0("tld") THEN Finish("panic") /\ UNCHANGED <<node, tkeys, ttl0, walk>>
      ELSE IF EntStops THEN SetNode("zone", "Insecure", {}) /\ UNCHANGED result
      ELSE UNCHANGED <<node, tkeys, ttl0, walk, pc, result>>
-  /\ UNCHANGED <<scn, budget, advlog, pend, inbox, msg, gi, gst, dsd, probes, served>>
+  /\ UNCHANGED <<run, hist, scn, budget, advlog, pend, inbox, msg, gi, gst, dsd, probes, served>>
 
 \* DNSKEY RRset arrived: trust anchor (root) or DS-committed key (child)
 VerifyKey ==
   /\ pc = "vkey" /\ Step
   /\ LET z == pend.z
-         want == IF z = "root" THEN Anchor ELSE dsd
+         want == IF z = "root" THEN {Anchor} ELSE dsd   \* keys the DS RRset commits to
          ok == /\ Has(inbox, "ans") /\ Get(inbox, "ans").kind = "dnskey"
                /\ LET g == Get(inbox, "ans") IN
-                    /\ want \in g.rdata
-                    /\ \E s \in g.sigs : s.sg.key = want /\ SigValid(s, g, {want})
+                    /\ \E k \in want : /\ k \in g.rdata
+                                        /\ \E s \in g.sigs : s.sg.key = k /\ SigValid(s, g, {k})
                     /\ ~TooManyBad(g)
      IN IF ok THEN SetNode(z, "Secure", Get(inbox, "ans").rdata)
         ELSE SetNode(z, "Bogus", {})
-  /\ UNCHANGED <<entp, scn, budget, advlog, pend, inbox, msg, gi, gst, dsd, probes, served,
+  /\ UNCHANGED <<run, hist, entp, scn, budget, advlog, pend, inbox, msg, gi, gst, dsd, probes, served,
                  fetches, result>>
 
 ProofGood(g, z, keys) ==   \* validly signed by zone z, and it proves what is needed
@@ -498,7 +566,7 @@ VerifyDs ==
      IN
      IF hasDs
      THEN LET g == Get(inbox, "ans") IN
-          IF (\E s \in g.sigs : s.signer = p /\ SigValid(s, g, keys)) /\ ~TooManyBad(g)
+          IF (\E s \in g.sigs : s.signer = p /\ SigValid(s, g, keys)) /\ ~TooManyBadWith(g, keys)
           THEN /\ dsd' = g.rdata
                /\ Issue("DNSKEY", z)
                /\ UNCHANGED <<node, tkeys, ttl0, walk, result>>
@@ -513,7 +581,7 @@ VerifyDs ==
                    /\ Get(inbox, "nx").prf.optout
           IN /\ SetNode(z, IF insecure THEN "Insecure" ELSE "Bogus", {})
              /\ UNCHANGED <<dsd, pend, inbox, fetches, result>>
-  /\ UNCHANGED <<entp, scn, budget, advlog, msg, gi, gst, probes, served>>
+  /\ UNCHANGED <<run, hist, entp, scn, budget, advlog, msg, gi, gst, probes, served>>
 
 \* an unsigned RRset below a Secure zone: get_node walks to the owner name
 \* with DS queries for the non-apex names (never an adversary target here)
@@ -525,13 +593,16 @@ Probe ==
           /\ fetches' = Append(fetches, [t |-> "DS", z |-> "name"])
           /\ pc' = "probe"
      ELSE /\ probes' = 0 /\ fetches' = fetches /\ pc' = "check"
-  /\ UNCHANGED <<entp, scn, budget, advlog, pend, inbox, msg, gi, gst, walk, node, tkeys, dsd,
+  /\ UNCHANGED <<run, hist, entp, scn, budget, advlog, pend, inbox, msg, gi, gst, walk, node, tkeys, dsd,
                  ttl0, served, result>>
 
 \* RFC 5155 section 6: an Opt-Out NSEC3 does not assert the (non)existence of
 \* insecure delegations in its span; an unsigned RRset at a name that is only
 \* covered by such a span may stem from an unsigned child zone
-OptOutSpan(g) == scn.denial = "optout" /\ g.wild
+\* (names that do not exist: the expanded wildcard owner, the hashed owner
+\* name of an NSEC3 record)
+OptOutSpan(g) == scn.denial = "optout" /\
+                 (g.wild \/ (g.kind = "proof" /\ g.prf.flavour = "nsec3"))
 
 \* Group::validate_with_node
 GroupState(g) ==
@@ -541,7 +612,7 @@ GroupState(g) ==
   ELSE IF g.sigs = {} /\ OptOutSpan(g) THEN "Insecure"   \* nsec3_for_ds: opt-out span
   ELSE IF /\ g.sigs # {} /\ Target(g) \in Anc(g.zone)
           /\ \E s \in g.sigs : SigValid(s, g, tkeys[e])
-          /\ ~TooManyBad(g)
+          /\ ~TooManyBadWith(g, tkeys[e])
        THEN "Secure" ELSE "Bogus"
 
 CheckGroup ==
@@ -553,7 +624,7 @@ CheckGroup ==
      THEN Finish("Bogus") /\ UNCHANGED <<gst, gi>>
      ELSE /\ gst' = Append(gst, st) /\ gi' = gi + 1 /\ pc' = "group"
           /\ UNCHANGED result
-  /\ UNCHANGED <<entp, scn, budget, advlog, pend, inbox, msg, walk, node, tkeys, dsd, ttl0,
+  /\ UNCHANGED <<run, hist, entp, scn, budget, advlog, pend, inbox, msg, walk, node, tkeys, dsd, ttl0,
                  probes, served, fetches>>
 
 \* --- classification of the validated answer (validate_msg after the groups) ---
@@ -584,7 +655,12 @@ Negative(maybe) ==
   IF ~Has(msg, "soa") THEN "Bogus"
   ELSE IF St("soa") # "Secure" THEN St("soa")
   ELSE LET signer == TheSig(Get(msg, "soa")).signer IN
-       IF scn.qk = "nxdomain"
+       IF scn.qk = "nxdeep"
+       THEN IF Usable("nx", signer) /\
+               (scn.denial # "nsec" => Usable("ce", signer) /\ Usable("wc", signer))
+            THEN Meet(maybe, Down("nx", "Secure"))
+            ELSE "Bogus"
+       ELSE IF scn.qk = "nxdomain"
        THEN IF Usable("nx", signer) /\ Usable("wc", signer)
             THEN Meet(maybe, Meet(Down("nx", "Secure"), Down("wc", "Secure")))
             ELSE "Bogus"
@@ -604,7 +680,7 @@ Verdict ==
       extra == IF "D_extra_rrset_ignored" \in Dev \/ ~Has(msg, "inj") THEN "Secure"
                ELSE St("inj")
   IN IF maybe = "Bogus" THEN "Bogus"
-     ELSE IF ChainOk /\ Has(msg, "ans") /\ scn.qk \notin {"nodata", "nxdomain"}
+     ELSE IF ChainOk /\ Has(msg, "ans") /\ scn.qk \notin {"nodata", "nxdomain", "nxdeep"}
      THEN LET st == St("ans") g == Get(msg, "ans") IN
           IF st # "Secure" THEN Meet(st, extra)
           ELSE IF ~g.wild THEN Meet(maybe, extra)
@@ -617,13 +693,27 @@ Judge ==
   /\ pc = "group" /\ gi > Len(msg) /\ Step
   /\ IF BadLabelSeen /\ "D_nsec3_label_expect" \in Dev
      THEN Finish("panic") ELSE Finish(Verdict)
-  /\ UNCHANGED <<entp, scn, budget, advlog, pend, inbox, msg, gi, gst, walk, node, tkeys, dsd,
+  /\ UNCHANGED <<run, hist, entp, scn, budget, advlog, pend, inbox, msg, gi, gst, walk, node, tkeys, dsd,
                  ttl0, probes, served, fetches>>
 
-Done == pc = "done" /\ UNCHANGED vars
+\* the same question is validated again on the same context: the node cache
+\* (and, invisibly, the signature and NSEC3-hash caches) persists; the answer
+\* and any fetch that is still needed may again be rewritten
+NextQuery ==
+  /\ pc = "done" /\ run < MaxRuns /\ result # "panic"
+  /\ run' = run + 1
+  /\ hist' = Append(hist, [adv |-> advlog, result |-> result])
+  /\ advlog' = <<>> /\ budget' = Budget
+  /\ pc' = "wire" /\ pend' = [t |-> "ANS", z |-> Leaf(scn.shape)]
+  /\ inbox' = HonestAnswer(scn.shape, scn.denial, scn.qk)
+  /\ msg' = <<>> /\ gi' = 1 /\ gst' = <<>> /\ walk' = <<>> /\ probes' = 0
+  /\ result' = "none" /\ steps' = 0
+  /\ UNCHANGED <<scn, node, tkeys, dsd, ttl0, served, fetches, entp>>
+
+Done == pc = "done" /\ (run = MaxRuns \/ result = "panic") /\ UNCHANGED vars
 
 ValNext == Deliver \/ StartGroup \/ EntProbe \/ FetchNext \/ VerifyKey \/ VerifyDs \/ Probe
-           \/ CheckGroup \/ Judge
+           \/ CheckGroup \/ Judge \/ NextQuery
 Next == AdvNext \/ ValNext \/ Done
 Spec == Init /\ [][Next]_vars /\ WF_vars(ValNext)
 
@@ -631,18 +721,20 @@ Spec == Init /\ [][Next]_vars /\ WF_vars(ValNext)
 (* The declarative oracle: RFC 4035 section 5 over the messages as served   *)
 
 Served(t, z) == \E i \in 1..Len(served) : served[i].k = FKey(t, z)
-ServedMsg(t, z) == served[CHOOSE i \in 1..Len(served) : served[i].k = FKey(t, z)].m
+\* the latest one: what the cached node was built from
+ServedMsg(t, z) == served[CHOOSE i \in 1..Len(served) : served[i].k = FKey(t, z) /\
+                             \A j \in 1..Len(served) : served[j].k = FKey(t, z) => j <= i].m
 
-KeyRRsetOk(m, want) ==
+KeyRRsetOk(m, want) ==     \* want: the set of keys the anchor / the DS RRset commits to
   /\ Has(m, "ans") /\ Get(m, "ans").kind = "dnskey"
   /\ LET g == Get(m, "ans") IN
-       want \in g.rdata /\ \E s \in g.sigs : s.sg.key = want /\ SigValid(s, g, {want})
+       \E k \in want : k \in g.rdata /\ \E s \in g.sigs : s.sg.key = k /\ SigValid(s, g, {k})
 
 RECURSIVE ChainO(_), KeysO(_)
 KeysO(z) == IF ChainO(z) = "Secure" THEN Get(ServedMsg("DNSKEY", z), "ans").rdata ELSE {}
 ChainO(z) ==
   IF z = "root"
-  THEN IF Served("DNSKEY", z) /\ KeyRRsetOk(ServedMsg("DNSKEY", z), Anchor)
+  THEN IF Served("DNSKEY", z) /\ KeyRRsetOk(ServedMsg("DNSKEY", z), {Anchor})
        THEN "Secure" ELSE "Bogus"
   ELSE LET p == Parent(z) cp == ChainO(p) IN
        IF cp # "Secure" THEN cp
@@ -691,12 +783,15 @@ Complete(m) ==
     [] scn.qk = "nodata" -> Has(m, "soa") /\ (ChainO(QZone) = "Secure" => PrfOk(m, "nd"))
     [] scn.qk = "nxdomain" -> Has(m, "soa") /\
          (ChainO(QZone) = "Secure" => PrfOk(m, "nx") /\ PrfOk(m, "wc"))
+    [] scn.qk = "nxdeep" -> Has(m, "soa") /\
+         (ChainO(QZone) = "Secure" =>
+             PrfOk(m, "nx") /\ (scn.denial # "nsec" => PrfOk(m, "ce") /\ PrfOk(m, "wc")))
     [] scn.qk = "ds" -> \/ Has(m, "ans")
                         \/ Has(m, "soa") /\ (PrfOk(m, "nd") \/ (PrfOk(m, "nx") /\ OptOut(m, "nx")))
 
 \* RFC 5155 9.2: an opt-out NSEC3 covering the next closer name => not authenticated
 OptOutUsed(m) ==
-  \/ scn.qk \in {"wildcard", "nxdomain"} /\ (OptOut(m, "nx") \/ OptOut(m, "wc"))
+  \/ scn.qk \in {"wildcard", "nxdomain", "nxdeep"} /\ (OptOut(m, "nx") \/ OptOut(m, "wc"))
   \/ scn.qk = "ds" /\ ~Has(m, "ans") /\ ~Has(m, "nd") /\ OptOut(m, "nx")
 
 AnswerO(m) ==
@@ -711,7 +806,15 @@ NoInj(m) == SelectSeq(m, LAMBDA g : g.role # "inj")
 \* what the property admits for this scenario (DESIGN section 7: a set)
 \* rewrites that must not change anything: failing extra signatures within
 \* the validator's documented tolerance
-Benign == \A i \in 1..Len(advlog) : advlog[i].act \in {"AddBadSig1First", "AddBadSig1Last"}
+BenignLog(log) ==
+  \/ \A i \in 1..Len(log) : log[i].act \in {"AddBadSig1First", "AddBadSig1Last"}
+  \/ Len(log) = 1 /\ log[1].act \in {"AddCollidingKeyFirst", "AddCollidingKeyLast",
+                                         "AddExtraDsFirst", "AddExtraDsLast"}
+\* (over all runs on this context: earlier runs' nodes are cached, and a second
+\* key with the same tag uses up the tolerance for one failed verification)
+RECURSIVE AllLog(_)
+AllLog(i) == IF i > Len(hist) THEN advlog ELSE hist[i].adv \o AllLog(i + 1)
+Benign == BenignLog(AllLog(1))
 Allowed ==
   IF Benign THEN {Oracle}
   ELSE IF Oracle = "Bogus" THEN {"Bogus"}
@@ -722,8 +825,18 @@ Allowed ==
 
 Finished == pc = "done"
 SecureShape == LeafSecure(scn.shape)
-OptOutCase == scn.denial = "optout" /\ scn.qk \in {"wildcard", "nxdomain"}
+OptOutCase == scn.denial = "optout" /\ scn.qk \in {"wildcard", "nxdomain", "nxdeep"}
 
+\* Caches are transparent: when the chain was fetched without interference in
+\* the earlier runs, a later verdict is the one this answer gets on a fresh
+\* context (the oracle's); with interference it is the verdict for the answer
+\* under the chain as it was served when the nodes were cached (Allowed is
+\* computed from exactly that).
+CacheTransparent ==
+  Finished /\ run > 1 /\ (\A i \in 1..Len(hist) : \A j \in 1..Len(hist[i].adv) :
+                               hist[i].adv[j].t = "ANS")
+     => result \in Allowed /\ (advlog = <<>> /\ ~OptOutCase /\ LeafSecure(scn.shape)
+                               /\ scn.qk # "dnamex" => result = "Secure")
 Soundness == Finished /\ result = "Secure" => Oracle = "Secure"
 HonestSecure == Finished /\ Benign /\ SecureShape /\ ~OptOutCase /\ scn.qk # "dnamex"
                    => result = "Secure"
@@ -734,5 +847,5 @@ WithinAllowed == Finished => result \in Allowed
 NoPanic == result # "panic"
 MaxSteps == 80
 Terminates == steps <= MaxSteps
-Termination == <>(pc = "done")
+Termination == <>(pc = "done" /\ (run = MaxRuns \/ result = "panic"))
 =============================================================================
